@@ -65,7 +65,7 @@ def run(ck, tier):
     except Exception as e:
         ck.refuted("R-C01-units", "internal:%s" % type(e).__name__, "", "rule could not run: %s" % e)
     from ..prover import Budget
-    for sub in (_consumers, _lexer, _loops, _spans, _precond, _total, _twin_scans, _md_breaks, _matchlen):
+    for sub in (_consumers, _lexer, _loops, _spans, _precond, _total, _twin_scans, _md_breaks, _matchlen, _div):
         try:
             sub(ck, p)
         except Budget as e:
@@ -1034,3 +1034,119 @@ def eval_char_pred(p, c, ch, depth=0, args=None):
     if r[0] != "bool":
         raise Stuck("predicate result is %s" % (r,))
     return r[1]
+
+
+# ---------------------------------------------------------------------------------------------------
+DIV_SCOPE = re.compile(r"^(harper_core|harper_comments|harper_html|harper_typst|harper_literate_haskell|harper_tree_sitter|harper_ls::git_commit_parser)(::|$)")
+
+
+def _div(ck, p):
+    """integer division and remainder panic on a zero divisor (there is no wrapping form in use)"""
+    from ..util import const_int
+    rule = "R-C01-div"
+    ck.rule(rule, "every integer division / remainder on the document-building and linting paths has a divisor that cannot be zero: a non-zero constant, or a value tested against zero on the way; a counter (starts at 0, incremented under a condition inside a loop) or an element count used as a divisor without such a test is zero for a text in which the condition never holds")
+    n = 0
+    for f in sorted((g for g in p.fns.values() if DIV_SCOPE.match(g.name)), key=lambda g: g.name):
+        sites = [(bi, b) for bi, b in enumerate(f.blocks) if not b["cleanup"] and b["t"]["k"] == "assert" and b["t"].get("msg") in ("div0", "rem0")]
+        if not sites:
+            continue
+        ck.saw(f)
+        cfg = Cfg(f)
+        pv = Prov(f)
+        for k, (bi, b) in enumerate(sites):
+            if bi not in cfg.reach0:
+                continue
+            n += 1
+            key = "%s:%s#%d" % (keyname(p, f), "div" if b["t"]["msg"] == "div0" else "rem", k)
+            where = f.loc(b["t"].get("ln", 0))
+            cl = place_of(b["t"]["cond"])
+            test = None
+            for sx in b["s"]:
+                if sx["k"] == "assign" and cl and sx["lhs"] == cl and sx["rv"]["k"] == "bin" and sx["rv"]["op"] == "Eq":
+                    test = sx["rv"]
+            if test is None:
+                ck.undecided(rule, key, where, "the zero test of this division was not found in its block")
+                continue
+            c = const_int(test["a"])
+            if c is not None:
+                ck.decide(rule, key, c != 0, where, "constant divisor %d" % c)
+                continue
+            dl = place_of(test["a"])
+            # follow plain copies back to the variable
+            root = dl[0] if dl and len(dl) == 1 else None
+            for _ in range(6):
+                ds = [x for (b2, si, kk, x) in pv.defs.get(root, [])] if root is not None else []
+                if len(ds) == 1 and ds[0].get("k") == "assign" and ds[0]["rv"]["k"] == "use" and place_of(ds[0]["rv"]["op"]) and len(place_of(ds[0]["rv"]["op"])) == 1:
+                    root = place_of(ds[0]["rv"]["op"])[0]
+                else:
+                    break
+            if root is None:
+                ck.undecided(rule, key, where, "the divisor is not a plain variable; whether it can be zero is not decided")
+                continue
+            aliases = {root}
+            for l, ds in pv.defs.items():
+                for (b2, si, kk, x) in ds:
+                    if kk == "assign" and x["rv"]["k"] == "use" and place_of(x["rv"]["op"]) == [root]:
+                        aliases.add(l)
+            # guard: a switch that dominates the division, decided by the variable (directly or through a
+            # comparison with a constant), whose arm for "the variable is 0" cannot reach the division
+            guarded = False
+            for gb, blk in enumerate(f.blocks):
+                if blk["cleanup"] or blk["t"]["k"] != "switch" or gb == bi or not cfg.dominates(gb, bi):
+                    continue
+                sw = blk["t"]
+                d = place_of(sw["discr"])
+                zero_arm = None
+                if d and len(d) == 1 and d[0] in aliases:
+                    zero_arm = dict((v, x) for v, x in sw["targets"]).get("0", sw.get("otherwise"))
+                elif d:
+                    r0 = _cmp_at_zero(f, pv, d[0], aliases)
+                    if r0 is not None:
+                        zero_arm = dict((v, x) for v, x in sw["targets"]).get("1" if r0 else "0", sw.get("otherwise"))
+                if zero_arm is not None and bi not in cfg.reachable_from([zero_arm]):
+                    guarded = True
+            defs = [x for (b2, si, kk, x) in pv.defs.get(root, []) if kk == "assign"]
+            calls = [x for (b2, si, kk, x) in pv.defs.get(root, []) if kk == "call"]
+            zero_init = any(x["rv"]["k"] == "use" and const_int(x["rv"]["op"]) == 0 for x in defs)
+            incs = [x for x in defs if x["rv"]["k"] == "use" and place_of(x["rv"]["op"]) and len(place_of(x["rv"]["op"])) == 2]
+            counter = zero_init and len(incs) >= 1 and len(incs) + 1 == len(defs) and not calls
+            counted = any(method(x) in ("count", "len") for x in calls) and not defs
+            names = f.debug_names()
+            nm = names.get(root, "_%d" % root)
+            if guarded:
+                ck.proved(rule, key, where, "the divisor `%s` is compared with a constant (or matched on) before the division" % nm)
+            elif counter or counted:
+                ck.refuted(rule, key, where, "the divisor `%s` is %s and is not tested before the division: for a text in which nothing is counted it is 0 and the division panics (attempt to divide by zero)" % (nm, "a counter that starts at 0 and is only incremented under a condition" if counter else "an element count"))
+            else:
+                ck.undecided(rule, key, where, "whether the divisor `%s` can be zero is not decided" % nm)
+    ck.floor(rule, "integer divisions / remainders in the front ends and rules", n, 4)
+
+
+def _cmp_at_zero(f, pv, l, aliases):
+    """l = <alias> op <const> (or the reverse): the value of the comparison when the alias is 0; None if l is not that"""
+    from ..util import const_int
+    for (b2, si, kk, x) in pv.defs.get(l, []):
+        if kk != "assign" or x["rv"]["k"] != "bin" or x["rv"]["op"] not in ("Eq", "Ne", "Gt", "Ge", "Lt", "Le"):
+            continue
+        a, b = x["rv"]["a"], x["rv"]["b"]
+
+        def is_alias(o):
+            pl = place_of(o)
+            if not pl or len(pl) != 1:
+                return False
+            cur = pl[0]
+            for _ in range(4):
+                if cur in aliases:
+                    return True
+                ds = [y for (b3, s3, k3, y) in pv.defs.get(cur, []) if k3 == "assign"]
+                if len(ds) == 1 and ds[0]["rv"]["k"] == "use" and place_of(ds[0]["rv"]["op"]) and len(place_of(ds[0]["rv"]["op"])) == 1:
+                    cur = place_of(ds[0]["rv"]["op"])[0]
+                else:
+                    return False
+            return False
+        ops = {"Eq": lambda u, v: u == v, "Ne": lambda u, v: u != v, "Gt": lambda u, v: u > v, "Ge": lambda u, v: u >= v, "Lt": lambda u, v: u < v, "Le": lambda u, v: u <= v}
+        if is_alias(a) and const_int(b) is not None:
+            return ops[x["rv"]["op"]](0, const_int(b))
+        if is_alias(b) and const_int(a) is not None:
+            return ops[x["rv"]["op"]](const_int(a), 0)
+    return None
